@@ -10,7 +10,7 @@ import itertools
 from vlib.framework import BaseCheck, CaseResult
 
 IDLE, OPEN, BUSY, CLOSED = 1, 2, 3, 4
-SERIAL_SKELETONS = ['open', 'one', 'two', 'after-timeout', 'chunked', 'timeout-in-write']
+SERIAL_SKELETONS = ['open', 'one', 'two', 'after-timeout', 'chunked', 'timeout-in-write', 'expired-on-arrival']
 MUX_SKELETONS = ['open', 'one', 'three', 'timed-out+one', 'queued', 'ping', 'silent-inflight', 'requests-while-opening']
 FAULTS = ['error', 'eof', 'refuse', 'silence']
 OPS = [('connect', 0)] + [('send', i) for i in range(4)] + [('recv', i) for i in range(10)]
@@ -42,7 +42,7 @@ PLAN = build_plan()
 class C08(BaseCheck):
   ID = 'C08'
   LEVEL = 'fault_enumeration'
-  RULE = ('enumerated space = {serial Thrift transport x skeletons open/one/two/after-timeout/chunked/timeout-in-write (deadline fires inside a blocked partial write), '
+  RULE = ('enumerated space = {serial Thrift transport x skeletons open/one/two/after-timeout/chunked/timeout-in-write (deadline fires inside a blocked partial write)/expired-on-arrival (deadline already past when the request reaches the transport), '
           'ThriftMux transport x skeletons open(incl. initial ping)/one/three concurrent/timed-out+one/'
           'queued(stalled writer)/ping/requests-while-opening/silent-inflight (peer goes silent with a request in flight and a timed-out one unacknowledged)} + {reply and close (FIN/RST) in one instant on request 0/1/2} x connection ordinal {0,1} x op {connect; send 0-3; recv 0-9} x fault '
           '{exception, EOF, refusal, silence}; quick and thorough both sweep it completely (thorough adds '
@@ -61,7 +61,8 @@ class C08(BaseCheck):
              'scales.scales_socket:ScalesSocket.open')
   REQUIRED_ANCHORS = ANCHORS
   REQUIRED_CLASSES = ('thrift', 'mux', 'fault:connect', 'fault:send', 'fault:recv', 'kind:error', 'kind:eof',
-                      'kind:refuse', 'kind:silence', 'reconnect-fault', 'probe', 'ping-silence', 'reply-and-close-same-instant', 'timeout-in-write', 'silent-with-inflight', 'requests-while-opening')
+                      'kind:refuse', 'kind:silence', 'reconnect-fault', 'probe', 'ping-silence', 'reply-and-close-same-instant', 'timeout-in-write', 'silent-with-inflight', 'requests-while-opening',
+                      'expired-on-arrival')
   ASSUMPTIONS = ('a silence fault (peer stops answering without closing) legitimately leaves the transport '
                  'open; only the probe clause applies then',)
   QUICK_WALL = 180
@@ -143,7 +144,7 @@ class C08(BaseCheck):
           self.late.append((env.now, 'stream' if msg is None else type(getattr(msg, 'error', None)).__name__))
         return ClientMessageSinkStack.AsyncProcessResponse(self, stream, msg)
 
-    def request(T=1.0, act=None):
+    def request(T=1.0, act=None, entry=None):
       key = 'k%d-%d' % (len(reqs), rng.getrandbits(16))
       if act is not None:
         plan[key] = act
@@ -157,7 +158,7 @@ class C08(BaseCheck):
       st.late = r['late'] = []
       st.Push(term, r)
       r['issue_seq'] = env.emit('req.issue', rid=r['id'])['seq']
-      gevent.spawn(top.AsyncProcessRequest, st, msg, None, {})
+      gevent.spawn((entry or top).AsyncProcessRequest, st, msg, None, {})
       return r
 
     def check_state(where):
@@ -235,6 +236,19 @@ class C08(BaseCheck):
         env.advance(1.5)
       elif sk == 'chunked':
         request(act={'delay': 0.001, 'chunks': [(1, 0.001), (3, 0.001), (5, 0.002), (7, 0.0)]})
+        env.advance(1.5)
+      elif sk == 'expired-on-arrival':
+        # a request whose deadline has already passed when it reaches the transport (it expired in
+        # a pool queue or while the connection opened): failed once, the transport stays usable
+        classes.add('expired-on-arrival')
+        # (handed over below the timeout sink, which would not let an expired request through)
+        request(T=rng.choice([-0.01, -1.0, 0.0]), entry=top.next_sink)
+        step(0.4, 'after the request that had expired on arrival')
+        if not reqs[-1]['deliveries']:
+          # the transport fails it once its reconnect has finished; a black-holed reconnect takes
+          # the whole connect timeout (no timeout sink above the transport completes it earlier here)
+          env.advance(130)
+        request()
         env.advance(1.5)
       elif sk == 'timeout-in-write':
         # the peer stops draining: write() commits a prefix of the frame and blocks; the
